@@ -21,3 +21,7 @@ package zknth
 //@   nopanic[C05]
 //@   inline
 //@   requires hash != nil && hash.h != nil && pkok(public.N) && pkvals(public.N) && pkbig(public.N) && public.R != nil
+//@   use absorb
+//@   ensures[C10] result1 == nil ==> absorbed(hstate(hash), habs(iface(public.N)))
+//@   ensures[C10] result1 == nil ==> absorbed(hstate(hash), habs(iface(public.R)))
+//@   ensures[C10] result1 == nil ==> absorbed(hstate(hash), habs(iface(commitment.A)))
